@@ -1,6 +1,7 @@
 (* props/C10.v - C10: the CLI writes the best replica, labelled with what was asked for. *)
 From Coq Require Import ZArith NArith List Bool Reals Floats String. Import ListNotations.
 From PV Require Import Num NumR model.Tables model.Spec model.Geom model.Optimiser model.OptSpec model.Pipeline model.Svg model.Json gen.GenTables gen.GenSchema proofs.OptStruct proofs.OptLoop proofs.LatticeFacts proofs.TablesFacts proofs.PipelineFacts proofs.OutputFacts proofs.FloatFacts proofs.OrderFacts.
+From PV Require Import model.Cli gen.GenCli proofs.CliFacts.
 
 Theorem C10_analyse_best_replica :
   forall (A : Type) (leb : A -> A -> bool), (forall a b : A, leb a b = true \/ leb b a = true)
@@ -50,4 +51,17 @@ Theorem C10_float_best_is_max :
     (forall x : scored X, In x l -> fleb (sc_score x) (sc_score b) = true).
 Proof. exact (@float_best_is_max). Qed.
 Print Assumptions C10_float_best_is_max.
+
+
+Theorem C10_cli_stage_chain :
+  forall NN : Num, map (st_input NN) (gen_stages NN) = [FromStart; FromPrevious; FromPrevious]
+    /\ gen_replica_range = "0..start_configs"%string /\ gen_reduce = "max"%string.
+Proof. exact cli_stage_chain. Qed.
+Print Assumptions C10_cli_stage_chain.
+
+Theorem C10_cli_stage_seeds :
+  forall (NN : Num) (i : N) (u : sbuilder NN) (k : nat), k < 3 -> sb_seed NN (stage_settings NN
+    (gen_stages NN) k i u) = Some i.
+Proof. exact cli_stage_seeds. Qed.
+Print Assumptions C10_cli_stage_seeds.
 
